@@ -1284,7 +1284,14 @@ impl World for WorldD {
             4 if self.cfg.migrations => {
                 let sc = *rng.pick(&["same", "same_with_default", "v1", "v1_with_default", "v2", "v2_with_default"]);
                 let msg = if sc.ends_with("with_default") { json!({"default_gas_limit": rng.range(100_000, 400_000)}) } else { json!({"default_gas_limit": null}) };
-                Step::Migrate { target: "ics20".into(), msg, scenario: Some(sc.split('_').next().unwrap().to_string()) }
+                let base = sc.split('_').next().unwrap();
+                // any release of that era: the version string only selects which conversions run
+                let scen = match base {
+                    "v1" => format!("v1:{}", rng.pick(&["0.11.1", "0.11.1", "0.12.0-alpha1"])),
+                    "v2" => format!("v2:{}", rng.pick(&["0.13.0", "0.12.0", "0.12.1", "0.13.0"])),
+                    o => o.to_string(),
+                };
+                Step::Migrate { target: "ics20".into(), msg, scenario: Some(scen) }
             }
             _ => {
                 let dh = *rng.pick(&[1u64, 1, 1, 2, 5, 100]);
@@ -1321,7 +1328,12 @@ impl World for WorldD {
             Step::Migrate { msg, scenario, .. } => {
                 if self.ics_ok {
                     let wadmin = addr_of("wasm-admin");
-                    let sc = scenario.clone().unwrap_or_default();
+                    let full = scenario.clone().unwrap_or_default();
+                    let (sc, ver_from) = match full.split_once(':') {
+                        Some((a, b)) => (a.to_string(), Some(b.to_string())),
+                        None => (full.clone(), None),
+                    };
+                    let cw2 = |v: &str| -> Binary { format!("{{\"contract\":\"crates.io:cw20-ics20\",\"version\":\"{}\"}}", v).into_bytes().into() };
                     let mut undo: Vec<(Binary, Option<Binary>)> = vec![];
                     if sc == "v1" {
                         // rewrite storage into the pre-allow-list layout: old Config{default_timeout, gov_contract},
@@ -1345,7 +1357,7 @@ impl World for WorldD {
                         }
                         let vk = rawkeys::item_key("contract_info");
                         undo.push((vk.clone().into(), get(&vk)));
-                        ops.push((vk.into(), Some(br#"{"contract":"crates.io:cw20-ics20","version":"0.11.1"}"#.to_vec().into())));
+                        ops.push((vk.into(), Some(cw2(ver_from.as_deref().unwrap_or("0.11.1")))));
                         self.unbook_in_flight(&dump, &mut ops, &mut undo);
                         self.chain.sudo("ics20", &json!({"__surgery": ops}), None);
                     }
@@ -1356,7 +1368,7 @@ impl World for WorldD {
                         let mut ops: Vec<(Binary, Option<Binary>)> = vec![];
                         let vk = rawkeys::item_key("contract_info");
                         undo.push((vk.clone().into(), get(&vk)));
-                        ops.push((vk.into(), Some(br#"{"contract":"crates.io:cw20-ics20","version":"0.13.0"}"#.to_vec().into())));
+                        ops.push((vk.into(), Some(cw2(ver_from.as_deref().unwrap_or("0.13.0")))));
                         self.unbook_in_flight(&dump, &mut ops, &mut undo);
                         self.chain.sudo("ics20", &json!({"__surgery": ops}), None);
                     }
